@@ -57,10 +57,17 @@ fn basisconv_contract(bits: u32) {
     kani::cover!(a > 0 && a < b && sp > 0 && e1 != 0 && f1 != 0);
 }
 
-#[kani::proof]
-#[kani::unwind(5)]
-#[kani::stub(crate::backend::w64::addcarry_u64, st_addcarry_u64)]
-#[kani::stub(crate::backend::w64::subborrow_u64, st_subborrow_u64)]
-fn verif_lag_basisconv_q() {
-    basisconv_contract(5);
-}
+macro_rules! bc_harness { ($name:ident, $bits:expr) => {
+    #[kani::proof]
+    #[kani::unwind(5)]
+    #[kani::stub(crate::backend::w64::addcarry_u64, st_addcarry_u64)]
+    #[kani::stub(crate::backend::w64::subborrow_u64, st_subborrow_u64)]
+    fn $name() {
+        basisconv_contract($bits);
+    }
+} }
+
+bc_harness!(verif_lag_basisconv_b3, 3);
+bc_harness!(verif_lag_basisconv_b4, 4);
+bc_harness!(verif_lag_basisconv_b5, 5);
+bc_harness!(verif_lag_basisconv_b6, 6);
